@@ -1,5 +1,5 @@
 #!/bin/sh
-# usage: tools/eval_refactor.sh <NAME> <dir-with-patch.diff+meta.json>
+# usage: tools/eval_refactor.sh <NAME> <dir-with-patch.diff+meta.json> ['<check ids>']
 # A behaviour-preserving refactoring written by a sub-agent: every check must stay silent on it (exit 0, no VIOLATION,
 # no harness error).  Scratch worktree + PYTHONPATH as in eval_seeded.sh; /repo is not touched.
 N=$1; SRC=$2
@@ -14,7 +14,8 @@ git -C /repo worktree add -q --detach $EV HEAD || exit 2
 (cd $EV && git apply $DST/patch.diff) || { echo "PATCH DOES NOT APPLY"; git -C /repo worktree remove --force $EV; exit 2; }
 tests=$(cd $EV && timeout 1500 /venv/bin/python -m pytest -q -p no:cacheprovider --timeout=900 2>&1 | tail -1)
 echo "suite with refactoring: $tests"
-IDS=$(python3 -c "import json;print(' '.join(c['property_id'] for c in json.load(open('$V/MANIFEST.json'))['checks']))")
+# optional third argument: the checks to run (default: all claimed ones)
+IDS=${3:-$(python3 -c "import json;print(' '.join(c['property_id'] for c in json.load(open('$V/MANIFEST.json'))['checks']))")}
 res=""
 for c in $IDS; do
   out=$(cd $V && PYTHONPATH=$EV VERIF_EVIDENCE_DIR=/tmp/ev/evidence_$N ./check $c 2>&1); code=$?
